@@ -32,6 +32,7 @@ type RSlot struct {
 	Pull     string `json:"pull,omitempty"`      // x | y  (pull path suffix)
 	RouteTok string `json:"route_tok,omitempty"` // "" | rt1 | rt2
 	Methods  string `json:"methods,omitempty"`   // "" | GET
+	MaxBody  int    `json:"max_body,omitempty"`  // 0: default | route-level max_body in bytes
 }
 
 type CfgSpec struct {
@@ -62,6 +63,9 @@ func (c CfgSpec) text(extra string) string {
 			continue
 		}
 		fmt.Fprintf(&b, "%s {\n", slotPaths[i])
+		if s.MaxBody > 0 {
+			fmt.Fprintf(&b, "  max_body %db\n", s.MaxBody)
+		}
 		if s.Methods != "" {
 			fmt.Fprintf(&b, "  match {\n    method %s\n    method POST\n  }\n", s.Methods)
 		}
@@ -100,6 +104,7 @@ func genCfgSpec(t *rapid.T, label string) CfgSpec {
 			Pull:     rapid.SampledFrom([]string{"x", "x", "y"}).Draw(t, label+"pull"),
 			RouteTok: rapid.SampledFrom([]string{"", "", "rt1", "rt2"}).Draw(t, label+"rtok"),
 			Methods:  rapid.SampledFrom([]string{"", "", "", "GET"}).Draw(t, label+"methods"),
+			MaxBody:  rapid.SampledFrom([]int{0, 0, 4}).Draw(t, label+"max_body"),
 		}
 	}
 	c.Global = rapid.SampledFrom([]string{"g1", "g1", "g2"}).Draw(t, label+"global")
@@ -128,6 +133,7 @@ func buildBattery(w *frontWorld, tag string) []probe {
 			ps = append(ps, probe{name: fmt.Sprintf("%s %s", p, name), api: "ingress", req: r})
 		}
 		add("anon", func(r *FReq) {})
+		add("anon-big", func(r *FReq) { r.Body = []byte("bbbbbbbb") })
 		add("get", func(r *FReq) { r.Method = "GET" })
 		for _, pw := range []string{"p1", "p2"} {
 			pw := pw
@@ -140,6 +146,11 @@ func buildBattery(w *frontWorld, tag string) []probe {
 			add("hmac-"+k, func(r *FReq) {
 				ts := fmt.Sprint(now.Unix())
 				r.Headers = [][2]string{{"X-Timestamp", ts}, {"X-Nonce", fmt.Sprintf("%s-%d-%s", tag, i, k)}, {"X-Signature", signHex(k, ts, "POST", p, r.Body)}}
+			})
+			add("hmac-"+k+"-big", func(r *FReq) {
+				ts := fmt.Sprint(now.Unix())
+				r.Body = []byte("bbbbbbbb")
+				r.Headers = [][2]string{{"X-Timestamp", ts}, {"X-Nonce", fmt.Sprintf("%s-%d-%s-big", tag, i, k)}, {"X-Signature", signHex(k, ts, "POST", p, r.Body)}}
 			})
 		}
 	}
@@ -224,10 +235,14 @@ func genC18Case() *rapid.Generator[C18Case] {
 		c := C18Case{Old: genCfgSpec(t, "old_")}
 		c.New = c.Old
 		// new = old with 1-3 edits (keeps the pair close, so differences are attributable)
-		n := rapid.IntRange(1, 3).Draw(t, "nedits")
+		n := rapid.IntRange(1, 4).Draw(t, "nedits")
+		i := 0
 		for k := 0; k < n; k++ {
-			i := rapid.IntRange(0, 2).Draw(t, "slot")
-			switch rapid.IntRange(0, 7).Draw(t, "edit") {
+			// consecutive edits mostly stay on one slot: a request sees two things change at once
+			if k == 0 || rapid.IntRange(0, 2).Draw(t, "move") == 0 {
+				i = rapid.IntRange(0, 2).Draw(t, "slot")
+			}
+			switch rapid.IntRange(0, 8).Draw(t, "edit") {
 			case 0:
 				c.New.Slots[i].On = !c.New.Slots[i].On
 			case 1:
@@ -244,9 +259,11 @@ func genC18Case() *rapid.Generator[C18Case] {
 				c.New.Order = rapid.IntRange(0, 2).Draw(t, "norder")
 			case 7:
 				c.New.Slots[i].Methods = rapid.SampledFrom([]string{"", "GET"}).Draw(t, "nmethods")
+			case 8:
+				c.New.Slots[i].MaxBody = 4 - c.New.Slots[i].MaxBody
 			}
 		}
-		c.Mode = rapid.SampledFrom([]string{"pause", "pause", "body-read", "failed"}).Draw(t, "mode")
+		c.Mode = rapid.SampledFrom([]string{"pause", "pause", "body-read", "body-read", "failed"}).Draw(t, "mode")
 		c.Pause = rapid.SampledFrom([]string{"state.write-unlocked", "state.write-unlocked", "reload.after-loadauth", "reload.after-updateall"}).Draw(t, "pause")
 		c.Fail = rapid.SampledFrom([]string{"removed", "directory", "garbage", "uncompilable", "secret-missing", "restart-listen", "restart-max-body", "restart-prefix", "truncated"}).Draw(t, "fail")
 		return c
